@@ -82,7 +82,7 @@ def run_case(case):
     for pm, qm in ((False, False), (True, True), (True, False), (False, True)):
         eng = q.DailyBusinessDaySimulationEngine(start, end, pre_market=pm, post_market=qm)
         times = set(e.ts for e in eng)
-        if set(e.ts for e in eng) != times:
+        if set(e.ts for e in list(eng)) != times:
             raise Violation('the clock for %s..%s emits different events when iterated a second time' % (start, end))
         for r in got:
             if r not in times:
